@@ -26,6 +26,7 @@ const (
 	vfC03KeyRABody        = "responseadaptor-body-keeps-backend-Content-Length"
 	vfC03KeyHead          = "HEAD-buffered-backend-declares-Content-Length-FetchPayload-reads-absent-body-500"
 	vfC03KeyTimeoutStream = "pool-timeout-cancels-streamed-response-body-when-handler-returns"
+	vfC03KeyStreamCut     = "mux-ignores-read-error-of-streamed-response-body-truncated-body-ends-as-complete-response"
 	vfC03KeyStreamGz      = "handler-panic runtime error: invalid memory address or nil pointer dereference @ readers.(*CallbackReader).OnAfter"
 )
 
@@ -59,6 +60,14 @@ type vfC03Resp struct {
 	Gzip     bool
 	Framing  string
 	Split    int
+	// backend fault: Cut = the body is promised in full (Content-Length when CutDeclared, else
+	// chunked) but only CutPermille/1000 of it is sent before the connection is dropped
+	Cut         bool
+	CutDeclared bool
+	CutPermille int
+	// Pre: the first attempts to reach the backend fail (status code, or 0 = connection dropped
+	// after the request was read); only with a retry policy that covers them
+	Pre []int
 }
 
 var vfC03HopNames = []string{"Connection", "Keep-Alive", "Proxy-Connection", "Proxy-Authenticate", "Proxy-Authorization", "Te", "Trailer", "Transfer-Encoding", "Upgrade"}
@@ -312,6 +321,10 @@ func vfC03GenCfg(rt *rapid.T, thorough bool) *vfxCfg {
 			c.ProxyServerMax = -1
 		}
 	}
+	// a retry must re-send the whole request
+	if a := rapid.SampledFrom([]int{0, 0, 0, 2, 3}).Draw(rt, "retry-attempts"); a > 0 {
+		c.RetryAttempts, c.FailureCodes = a, []int{502, 503}
+	}
 	// caches must be transparent: the route cache of the server, the memoryCache of the pool
 	c.CacheSize = rapid.SampledFrom([]uint32{0, 0, 3, 1000}).Draw(rt, "route-cacheSize")
 	if rapid.IntRange(0, 2).Draw(rt, "memoryCache") == 0 {
@@ -370,7 +383,7 @@ func (q *vfC03Req) toWire() *vfxRequest {
 func (p *vfC03Resp) plainBody() []byte { return vfxBody(p.BodySeed, p.BodyN, p.BodyKind) }
 
 func (p *vfC03Resp) toScript() *vfxScript {
-	s := &vfxScript{Status: p.Status, Framing: p.Framing, Split: p.Split}
+	s := &vfxScript{Status: p.Status, Framing: p.Framing, Split: p.Split, Pre: p.Pre}
 	s.Headers = append(s.Headers, p.E2E...)
 	s.Headers = append(s.Headers, p.Hop...)
 	b := p.plainBody()
@@ -379,6 +392,13 @@ func (p *vfC03Resp) toScript() *vfxScript {
 		b = vfxGzip(b)
 	}
 	s.Body = b
+	if p.Cut {
+		s.Framing, s.CutDeclared = "cut", p.CutDeclared
+		s.CutAt = len(b) * p.CutPermille / 1000
+		if s.CutAt >= len(b) {
+			s.CutAt = len(b) - 1
+		}
+	}
 	return s
 }
 
@@ -602,6 +622,52 @@ func vfC03CheckResponse(c *vfxCfg, q *vfC03Req, p *vfC03Resp, resp *vfxResponse,
 	return nil
 }
 
+// vfC03CheckCut: the backend promised a body and dropped the connection in the middle of it. The
+// client must not be given a well-framed response that decodes cleanly to something else than the
+// whole body; an error status, a torn connection, an unterminated chunked body or a body that does
+// not decode are the honest outcomes.
+func vfC03CheckCut(c *vfxCfg, q *vfC03Req, p *vfC03Resp, resp *vfxResponse, vf *vfCollector) *vfC03Verdict {
+	if resp.Status == 0 || resp.FramingErr != "" {
+		vf.Class("cut:torn-or-unterminated")
+		return nil
+	}
+	if resp.Status != p.Status {
+		if resp.Status >= 400 {
+			vf.Class("cut:error-status")
+			return nil
+		}
+		return &vfC03Verdict{"resp-status", fmt.Sprintf("backend answered %d and cut its body, client received %d :: %s", p.Status, resp.Status, resp)}
+	}
+	if resp.Status >= 400 && len(resp.Body) == 0 {
+		// the backend's own status was an error status: indistinguishable from the proxy's failure response
+		vf.Class("cut:error-status")
+		return nil
+	}
+	want := p.plainBody()
+	if c.RespAdaptor == "body" {
+		want = []byte(c.RespAdaptorBody)
+	}
+	got := resp.Body
+	ce := resp.Get("Content-Encoding")
+	if len(ce) == 1 && strings.EqualFold(ce[0], "gzip") {
+		dec, err := vfxGunzip(got)
+		if err != nil {
+			vf.Class("cut:undecodable-gzip")
+			return nil
+		}
+		got = dec
+	} else if len(ce) != 0 {
+		vf.Class("cut:other-content-encoding")
+		return nil
+	}
+	if bytes.Equal(got, want) {
+		vf.Class("cut:whole-body-anyway")
+		return nil
+	}
+	return &vfC03Verdict{"resp-cut-body-delivered-as-complete", fmt.Sprintf("backend dropped the connection after %d permille of its body (declared=%v); the client received a well-framed %d whose body (after undoing Content-Encoding %q) is %s instead of %s, with nothing that tells it is incomplete :: %s",
+		p.CutPermille, p.CutDeclared, resp.Status, ce, vfxBrief(got), vfxBrief(want), resp)}
+}
+
 // ---------------------------------------------------------------------------------------------
 // preconditions of the known defects (used to attribute a symptom and to steer away)
 
@@ -622,12 +688,12 @@ func vfC03AfterTransport(q *vfC03Req, p *vfC03Resp) (gz bool, length int) {
 		if vfC03TransportDecoded(q, p) {
 			return false, -1
 		}
-		if p.Framing != "cl" {
+		if p.Framing != "cl" && !(p.Cut && p.CutDeclared) {
 			return true, -1
 		}
 		return true, len(vfxGzip(p.plainBody()))
 	}
-	if p.Framing != "cl" {
+	if p.Framing != "cl" && !(p.Cut && p.CutDeclared) {
 		return false, -1
 	}
 	return false, p.BodyN
@@ -699,6 +765,29 @@ func TestVerifC03Forward(t *testing.T) {
 				// the case its own key, so that a hit can only come from a repetition of the same request
 				q.RawPath = fmt.Sprintf("/i%d", i) + q.RawPath
 			}
+			if cfg.RetryAttempts > 0 {
+				// statuses listed as failure codes end the pipeline flow: keep them for the scripted failures
+				if p.Status == 502 || p.Status == 503 {
+					p.Status = 504
+				}
+				if !vfC03ReqStream(cfg) && rapid.Bool().Draw(rt, "failing-attempts") {
+					k := rapid.IntRange(1, cfg.RetryAttempts-1).Draw(rt, "nfailing")
+					for j := 0; j < k; j++ {
+						p.Pre = append(p.Pre, rapid.SampledFrom([]int{503, 502, 0}).Draw(rt, "failure-kind"))
+					}
+				}
+			}
+			if q.Method != "HEAD" && p.Status != 204 && p.Status != 304 && p.BodyN >= 2 {
+				odds := 9
+				if vfC03RespStream(cfg) {
+					odds = 3
+				}
+				if rapid.IntRange(0, odds).Draw(rt, "backend-cuts-body") == 0 {
+					p.Cut, p.CutDeclared = true, rapid.Bool().Draw(rt, "cut-declared")
+					p.CutPermille = rapid.SampledFrom([]int{0, 1, 300, 500, 900, 999}).Draw(rt, "cut-permille")
+					p.Framing = "cut"
+				}
+			}
 			cacheable := false
 			if cfg.MemCache != nil {
 				for _, m := range cfg.MemCache.Methods {
@@ -761,6 +850,8 @@ func TestVerifC03Forward(t *testing.T) {
 					"compression-configured": cfg.Compression >= 0, "reqadaptor=" + cfg.ReqAdaptor: cfg.ReqAdaptor != "", "respadaptor=" + cfg.RespAdaptor: cfg.RespAdaptor != "",
 					"body>=70KiB": q.BodyN >= 70*1024 || p.BodyN >= 70*1024, "hop-header-sent": len(q.Hop) > 0, "conn-reused": rig.lastReused, "query": q.Query != "", "pool-timeout": cfg.PoolTimeout != "",
 					"route-cache-on": cfg.CacheSize > 0, "repeated-request": rep > 0, "repeated-request-route-cache-on": rep > 0 && cfg.CacheSize > 0,
+					"retry-policy": cfg.RetryAttempts > 0, "retry-after-failed-attempts": len(p.Pre) > 0, "retry-after-failed-attempts-with-body": len(p.Pre) > 0 && q.BodyN > 0,
+					"backend-cuts-body": p.Cut, "backend-cuts-body-stream": p.Cut && vfC03RespStream(cfg), "backend-cuts-body-stream-recoded": p.Cut && vfC03RespStream(cfg) && (cfg.RespAdaptor != "" || vfC03CompressApplies(cfg, &q, &p)),
 					"memoryCache": cfg.MemCache != nil, "memoryCache-repeated-cacheable-request": cacheable && rep > 0,
 					"memoryCache-hit(backend-not-contacted)":         cacheable && rep > 0 && len(seen) == 0,
 					"memoryCache-3rd+-repetition-behind-respadaptor": cacheable && rep >= 2 && cfg.RespAdaptor != ""} {
@@ -768,7 +859,7 @@ func TestVerifC03Forward(t *testing.T) {
 						vf.Class(n)
 					}
 				}
-				desc := fmt.Sprintf("repetition %d of %d\ncfg{%s}\nrequest{%s}\nbackend-script{status=%d hdr=%q hop=%q body=%d/%d gzip=%v framing=%s}", rep+1, reps, strings.ReplaceAll(rig.pipeYAML+rig.srvYAML, "\n", "; "), wire, p.Status, p.E2E, p.Hop, p.BodyN, p.BodySeed, p.Gzip, p.Framing)
+				desc := fmt.Sprintf("repetition %d of %d\ncfg{%s}\nrequest{%s}\nbackend-script{status=%d hdr=%q hop=%q body=%d/%d gzip=%v framing=%s cut=%v/declared=%v/permille=%d failing-attempts=%v}", rep+1, reps, strings.ReplaceAll(rig.pipeYAML+rig.srvYAML, "\n", "; "), wire, p.Status, p.E2E, p.Hop, p.BodyN, p.BodySeed, p.Gzip, p.Framing, p.Cut, p.CutDeclared, p.CutPermille, p.Pre)
 				// distinct-case key: ports vary between runs, keep them out
 				mc := ""
 				if cfg.MemCache != nil {
@@ -793,6 +884,9 @@ func TestVerifC03Forward(t *testing.T) {
 						key = "handler-panic " + vfxPanicSite(frontLog)
 					case reserved && (v.Symptom == "req-path" || v.Symptom == "req-query" || v.Symptom == "req-not-forwarded"):
 						key = vfC03KeyPath
+					case v.Symptom == "resp-cut-body-delivered-as-complete" && vfC03RespStream(cfg) && len(resp.Get("Content-Encoding")) == 0:
+						// identity-coded and cleanly terminated: the mux swallowed the read error of the stream
+						key = vfC03KeyStreamCut
 					case v.Symptom == "req-not-forwarded":
 					case respSide && cfg.PoolTimeout != "" && vfC03RespStream(cfg) && v.Symptom != "resp-status" && v.Symptom != "resp-header":
 						key = vfC03KeyTimeoutStream
@@ -809,8 +903,11 @@ func TestVerifC03Forward(t *testing.T) {
 					return vf.Violation(rt, key, "%s\n%s\nbackend received: %v\nclient received: %s\nfront server log: %s", v.Text, desc, seen, resp, frontLog)
 				}
 
-				// 1. framing of whatever was written to the socket
-				if v := vfC03CheckFraming(resp); v != nil {
+				// 1. framing of whatever was written to the socket (a torn response is what a proxy can
+				// honestly do when the backend dropped the connection in the middle of the body)
+				if p.Cut {
+					// judged below
+				} else if v := vfC03CheckFraming(resp); v != nil {
 					if fail(v) {
 						rig.dropConn()
 						continue
@@ -820,13 +917,43 @@ func TestVerifC03Forward(t *testing.T) {
 				// a repetition of a cacheable request may legitimately be answered by the memoryCache
 				if cacheable && rep > 0 && len(seen) == 0 {
 					// nothing to compare
-				} else if v := vfC03CheckRequest(cfg, &q, rig, seen, resp); v != nil {
-					if fail(v) {
-						rig.dropConn()
-						continue
+				} else {
+					// every attempt that reached the backend must have carried the whole request; the last
+					// one produced the response
+					var v *vfC03Verdict
+					if len(seen) == 0 {
+						v = vfC03CheckRequest(cfg, &q, rig, seen, resp)
+					}
+					for j := range seen {
+						if v = vfC03CheckRequest(cfg, &q, rig, seen[j:j+1], resp); v != nil {
+							if len(seen) > 1 {
+								v.Text = fmt.Sprintf("attempt %d of %d that reached the backend: %s", j+1, len(seen), v.Text)
+								if v.Symptom == "req-body" && j > 0 {
+									v.Symptom = "req-body-on-retry"
+								}
+							}
+							break
+						}
+					}
+					if v == nil && len(seen) < len(p.Pre)+1 && !p.Cut {
+						v = &vfC03Verdict{"harness", fmt.Sprintf("backend scripted %d failing attempts but saw only %d arrivals", len(p.Pre), len(seen))}
+					}
+					if v != nil {
+						if fail(v) {
+							rig.dropConn()
+							continue
+						}
 					}
 				}
 				// 3. response direction
+				if p.Cut {
+					if v := vfC03CheckCut(cfg, &q, &p, resp, vf); v != nil {
+						if fail(v) {
+							rig.dropConn()
+						}
+					}
+					continue
+				}
 				var amb []string
 				if v := vfC03CheckResponse(cfg, &q, &p, resp, &amb); v != nil {
 					if fail(v) {
